@@ -117,6 +117,10 @@ def render(model, output: str, inputs: dict[str, str]) -> str:
             return "(Mod0 " + " ".join(args()) + ")"
         if op in ("Add", "Sub", "Mul", "Equal", "Less", "And", "Or"):
             return f"({op} " + " ".join(args()) + ")"
+        if op in ("ReduceSum", "ReduceProd", "ReduceMin", "ReduceMax"):
+            if len(n.input) != 2:
+                raise Unsupported(f"{op} without an axes input")
+            return f"({op} {attr(n, 'keepdims', 1)} {attr(n, 'noop_with_empty_axes', 0)} " + " ".join(args()) + ")"
         raise Unsupported(op)
 
     return go(output)
@@ -551,5 +555,141 @@ def search_getitem(ctx, idx, shape0, rng):
                 ctx.violation(f"getitem/graph-tie/{style}/values",
                               f"x[{c08.to_py(idx)}] on shape {sh} ({style}): {obs} vs NumPy {np.asarray(ref).tolist()}",
                               {"index": str(c08.to_py(idx)), "shape": list(sh), "style": style})
+                return True
+    return False
+
+
+# --------------------------------------------------------------------------------------
+# reductions (integer / boolean dtypes)
+# --------------------------------------------------------------------------------------
+CODE = {"uint8": 2, "int8": 3, "uint16": 4, "int16": 5, "int32": 6, "int64": 7, "bool": 9, "uint32": 12, "uint64": 13}
+NP_REDUCE = {"sum": np.sum, "prod": np.prod, "min": np.min, "max": np.max, "all": np.all, "any": np.any}
+
+
+def reduce_cases(rng: random.Random, n: int):
+    out = []
+    for _ in range(n):
+        fn = rng.choice(["sum", "prod", "min", "max", "all", "any", "all", "any"])
+        dtype = rng.choice(list(CODE) if fn in ("all", "any") else [d for d in CODE if d != "bool"])
+        rank = rng.choice([1, 2, 2, 3])
+        form = rng.choice(["none", "int", "int", "tuple", "empty"])
+        if form == "none":
+            axis, tok = None, "~"
+        elif form == "int":
+            axis = rng.randrange(-rank, rank)
+            tok = str(axis)
+        elif form == "empty":
+            axis, tok = (), "()"
+        else:
+            k = rng.randrange(1, rank + 1)
+            ax = rng.sample(range(rank), k)
+            axis = tuple(a - rank if rng.random() < 0.5 else a for a in ax)
+            tok = "(" + ",".join(map(str, axis)) + ")"
+        kd = rng.random() < 0.4
+        dt = None
+        if fn in ("sum", "prod") and rng.random() < 0.3:
+            dt = rng.choice(["int16", "int32", "int64", "uint32", "uint64", "uint8"])
+        out.append({"fn": fn, "dtype": dtype, "rank": rank, "axis": axis, "axis_tok": tok, "keepdims": kd, "acc": dt})
+    return out
+
+
+def run_reduce(ctx, n: int, styles=("static", "symbolic", "none"), label="reduce"):
+    rng = random.Random(f"tgraph/{label}/{ctx.seed}")
+    cases = reduce_cases(rng, n)
+    lines = [f"tg_render {c['fn']} {CODE[c['dtype']]} {c['rank']} {c['axis_tok']} {int(c['keepdims'])} {CODE[c['acc']] if c['acc'] else '~'}" for c in cases]
+    want = common.model(lines)
+    eval_lines, eval_meta = [], []
+    matched = 0
+    for c, line, w in zip(cases, lines, want):
+        style = rng.choice(styles)
+        # extents: keep the trace-time shape free of zeros (the statically-empty shortcut of all/any is a constant)
+        shape = tuple(rng.choice([1, 2, 3]) for _ in range(c["rank"]))
+        dims = decl_dims(style, shape, "R")
+        kw = {"axis": c["axis"], "keepdims": c["keepdims"]}
+        if c["acc"]:
+            kw["dtype"] = impl.dt(c["acc"])
+        x = ndx.array(shape=dims, dtype=impl.dt(c["dtype"]))
+        ident = (label, c["fn"], c["dtype"], c["rank"], c["axis_tok"], c["keepdims"], c["acc"], style)
+        try:
+            y = getattr(ndx, c["fn"])(x, **kw)
+            model = ndx.build({"x": x}, {"y": y})
+            got = render(model, "y", {"x": "in0"})
+        except Unsupported as e:
+            got = f"unsupported:{e}"
+        except TypeError as e:
+            got = "err TypeError"
+        except Exception as e:
+            got = f"raised {type(e).__name__}: {str(e)[:120]}"
+        ctx.case(ident, True, {"call": line, "dims": str(dims), "exported": got[:300]} if len(ctx.samples) < 10 else None)
+        ctx.count(f"tgraph-{label}:{c['fn']}")
+        if got != w:
+            ctx.corr_broken(f"tgraph-term/{c['fn']}", {"call": line, "dims": str(dims), "exported": got[:800], "model": w[:800]})
+            search_reduce(ctx, c, rng, "exported graph is not the modelled term")
+            continue
+        matched += 1
+        if got.startswith("err"):
+            continue
+        # tie D with explicit data (zeros, negatives, type extremes folded into range), incl. zero extents when dims are dynamic
+        npd = np.dtype(c["dtype"])
+        for shp in ([shape] if style == "static" else [shape, tuple(rng.choice([0, 1, 2, 3]) for _ in range(c["rank"]))]):
+            size = int(np.prod(shp))
+            if npd == np.bool_:
+                data = (np.arange(size) % 3 == 1)
+            else:
+                info = np.iinfo(npd)
+                raw = [rng.choice([0, 0, 1, 2, -1, -3, 5, int(info.max), int(info.min)]) for _ in range(size)]
+                data = np.array([max(int(info.min), min(int(info.max), v)) for v in raw], dtype=npd)
+            data = data.reshape(shp)
+            try:
+                res = impl.run_model(model, {"x": data}, {"y": y})["y"]
+            except Exception as e:
+                continue       # onnxruntime refuses (e.g. min/max over an empty extent): not an admissible input
+            eval_lines.append(f"tg_evald {_tok(shp)}:{_ints(data.astype(object).reshape(-1).tolist() if npd != np.bool_ else data.astype(int).reshape(-1).tolist())} {got}")
+            eval_meta.append((line, shp, res))
+    ans = common.model(eval_lines)
+    agree = 0
+    for a, (line, shp, res) in zip(ans, eval_meta):
+        vals = res.astype(int).reshape(-1).tolist() if res.dtype == np.bool_ else [int(v) for v in res.reshape(-1).tolist()]
+        exp = f"ok {_tok(res.shape)} {_ints(vals)}"
+        if a != exp:
+            ctx.corr_broken("tgraph-eval-vs-onnxruntime/reduce", {"call": line, "shape": list(shp), "lean": a[:300], "onnxruntime": exp[:300]})
+        else:
+            agree += 1
+    ctx.count(f"tgraph-{label}-terms-matched", matched)
+    ctx.count(f"tgraph-{label}-lean-eval-agrees-with-onnxruntime", agree)
+
+
+def search_reduce(ctx, c, rng, why):
+    """Failing-input search: the exported model vs NumPy on small inputs, zero extents included."""
+    npd = np.dtype(c["dtype"])
+    kw = {"axis": c["axis"], "keepdims": c["keepdims"]}
+    nkw = dict(kw)
+    if c["acc"]:
+        kw["dtype"] = impl.dt(c["acc"])
+        nkw["dtype"] = np.dtype(c["acc"])
+    for style in ("symbolic", "static"):
+        for _ in range(16):
+            shp = tuple(rng.choice([0, 1, 2, 3]) for _ in range(c["rank"]))
+            size = int(np.prod(shp))
+            data = (np.arange(size) % 3 == 1) if npd == np.bool_ else np.array([rng.choice([0, 0, 1, 2, 3]) for _ in range(size)], dtype=npd)
+            data = data.reshape(shp)
+            try:
+                ref = NP_REDUCE[c["fn"]](data, **nkw)
+            except Exception:
+                continue
+            if c["fn"] in ("sum", "prod") and not c["acc"] and npd.kind == "u":
+                ref = ref.astype(np.uint64 if c["fn"] == "sum" else np.uint32)      # the library's documented unsigned accumulators
+            try:
+                x = ndx.array(shape=decl_dims(style, shp, "R"), dtype=impl.dt(c["dtype"]))
+                y = getattr(ndx, c["fn"])(x, **kw)
+                res = impl.run_model(ndx.build({"x": x}, {"y": y}), {"x": data}, {"y": y})["y"]
+                bad = res.shape != np.shape(ref) or not np.array_equal(res, ref)
+                obs = res.tolist()
+            except Exception as e:
+                bad, obs = True, f"{type(e).__name__}: {str(e)[:160]}"
+            if bad:
+                ctx.violation(f"{c['fn']}/graph-tie/{style}/values",
+                              f"{c['fn']}({c['dtype']}{list(shp)}, axis={c['axis']}, keepdims={c['keepdims']}, dtype={c['acc']}) {style}: {obs} vs NumPy {np.asarray(ref).tolist()} [{why}]",
+                              {"fn": c["fn"], "dtype": c["dtype"], "shape": list(shp), "axis": str(c["axis"]), "keepdims": c["keepdims"], "acc": c["acc"], "data": data.tolist()})
                 return True
     return False
